@@ -1,0 +1,183 @@
+//go:build verif
+
+/*
+ Licensed to the Apache Software Foundation (ASF) under one
+ or more contributor license agreements.  See the NOTICE file
+ distributed with this work for additional information
+ regarding copyright ownership.  The ASF licenses this file
+ to you under the Apache License, Version 2.0 (the
+ "License"); you may not use this file except in compliance
+ with the License.  You may obtain a copy of the License at
+
+     http://www.apache.org/licenses/LICENSE-2.0
+
+ Unless required by applicable law or agreed to in writing, software
+ distributed under the License is distributed on an "AS IS" BASIS,
+ WITHOUT WARRANTIES OR CONDITIONS OF ANY KIND, either express or implied.
+ See the License for the specific language governing permissions and
+ limitations under the License.
+*/
+
+package objects
+
+import (
+	"sync/atomic"
+	"time"
+
+	"github.com/apache/yunikorn-core/pkg/common/resources"
+)
+
+// Verification hooks, only compiled with the "verif" build tag.
+
+// VerifFirePlaceholderTimer runs the placeholder timeout processing if (and only if) the timer is armed.
+func (sa *Application) VerifFirePlaceholderTimer() bool {
+	sa.Lock()
+	armed := sa.placeholderTimer != nil
+	if armed {
+		// stop the real timer: we fire it by hand. The processing clears the timer itself.
+		sa.placeholderTimer.Stop()
+	}
+	sa.Unlock()
+	if !armed {
+		return false
+	}
+	sa.timeoutPlaceholderProcessing()
+	return true
+}
+
+// VerifFireStateTimer runs the state timeout for the current state if (and only if) the state timer is armed.
+// The event is the one the production code arms for that state.
+func (sa *Application) VerifFireStateTimer() bool {
+	sa.Lock()
+	armed := sa.stateTimer != nil
+	state := sa.stateMachine.Current()
+	sa.Unlock()
+	if !armed {
+		return false
+	}
+	var event applicationEvent
+	switch state {
+	case Completing.String():
+		event = CompleteApplication
+	case Completed.String(), Failed.String(), Rejected.String():
+		event = ExpireApplication
+	default:
+		return false
+	}
+	sa.timeoutStateTimer(state, event)()
+	return true
+}
+
+// VerifTimersArmed reports which timers are armed.
+func (sa *Application) VerifTimersArmed() (placeholder bool, state bool) {
+	sa.RLock()
+	defer sa.RUnlock()
+	return sa.placeholderTimer != nil, sa.stateTimer != nil
+}
+
+// VerifSortedRequestKeys returns the keys of the sorted requests in order.
+func (sa *Application) VerifSortedRequestKeys() []string {
+	sa.RLock()
+	defer sa.RUnlock()
+	keys := make([]string, 0, len(sa.sortedRequests))
+	for _, r := range sa.sortedRequests {
+		keys = append(keys, r.allocationKey)
+	}
+	return keys
+}
+
+// VerifSetTimings overrides package level timing values. Zero or negative values are ignored.
+// Must be called before any scheduling is started.
+func VerifSetTimings(preemptAttemptFreq, reservationWait, completing, terminated time.Duration) {
+	if preemptAttemptFreq >= 0 {
+		preemptAttemptFrequency = preemptAttemptFreq
+	}
+	if reservationWait > 0 {
+		reservationWaitTimeout = reservationWait
+	}
+	if completing > 0 {
+		completingTimeout = completing
+	}
+	if terminated > 0 {
+		terminatedTimeout = terminated
+	}
+}
+
+// VerifSortQueues returns the sorted child queues as used by the scheduling cycle.
+func VerifSortQueues(parent *Queue) []*Queue {
+	return parent.sortQueues()
+}
+
+// VerifSortApplications returns the sorted applications as used by the scheduling cycle.
+func VerifSortApplications(leaf *Queue, withPlaceholdersOnly bool) []*Application {
+	return leaf.sortApplications(withPlaceholdersOnly)
+}
+
+// VerifQuotaPreemptionBusy returns true if quota preemption is running for this queue or any child.
+func (sq *Queue) VerifQuotaPreemptionBusy() bool {
+	if sq.getQuotaPreemptionRunning() {
+		return true
+	}
+	for _, child := range sq.GetCopyOfChildren() {
+		if child.VerifQuotaPreemptionBusy() {
+			return true
+		}
+	}
+	return false
+}
+
+// VerifQuotaPreemptionStart returns the time the quota preemption is set to start.
+func (sq *Queue) VerifQuotaPreemptionStart() time.Time {
+	sq.RLock()
+	defer sq.RUnlock()
+	return sq.quotaPreemptionStartTime
+}
+
+// VerifReservation is a flat view of a reservation.
+type VerifReservation struct {
+	AppID, AllocKey, NodeID string
+	RequiredNode            bool
+}
+
+// VerifReservations returns the reservations of the node.
+func (sn *Node) VerifReservations() []VerifReservation {
+	sn.RLock()
+	defer sn.RUnlock()
+	out := make([]VerifReservation, 0, len(sn.reservations))
+	for _, r := range sn.reservations {
+		out = append(out, VerifReservation{AppID: r.appID, AllocKey: r.allocKey, NodeID: r.nodeID, RequiredNode: r.alloc != nil && r.alloc.requiredNode != ""})
+	}
+	return out
+}
+
+// VerifReservations returns the reservations of the application.
+func (sa *Application) VerifReservations() []VerifReservation {
+	sa.RLock()
+	defer sa.RUnlock()
+	out := make([]VerifReservation, 0, len(sa.reservations))
+	for _, r := range sa.reservations {
+		out = append(out, VerifReservation{AppID: r.appID, AllocKey: r.allocKey, NodeID: r.nodeID, RequiredNode: r.alloc != nil && r.alloc.requiredNode != ""})
+	}
+	return out
+}
+
+// VerifNodeAddProbe is called, holding the node lock, for every allocation that is added to a node.
+type VerifNodeAddProbe func(nodeID, allocKey string, force, fits, foreign bool)
+
+var verifNodeAddProbe atomic.Pointer[VerifNodeAddProbe]
+
+// VerifSetNodeAddProbe installs (or removes, with nil) the probe.
+func VerifSetNodeAddProbe(p VerifNodeAddProbe) {
+	if p == nil {
+		verifNodeAddProbe.Store(nil)
+		return
+	}
+	verifNodeAddProbe.Store(&p)
+}
+
+// verifNodeAdd is called from addAllocationInternal with the node lock held, just before the ledger is updated.
+func verifNodeAdd(sn *Node, alloc *Allocation, force bool, res *resources.Resource) {
+	if p := verifNodeAddProbe.Load(); p != nil {
+		(*p)(sn.NodeID, alloc.allocationKey, force, sn.availableResource.FitIn(res), alloc.foreign)
+	}
+}
